@@ -3,5 +3,5 @@ From Common Require Import Bytes Drv Blake2b.
 From Trie Require Import Nibbles Encode.
 From C03 Require Import Model.
 Extraction "model.ml" drv_b2n drv_n2b drv_z_of_n drv_n_of_z drv_nat_of_n drv_n_of_nat
-  blake2b_256 init_state exec hash_handle entries_handle frozen_parents mutated_handle
+  blake2b_256 init_state exec xexec xmutated_handle hash_handle entries_handle frozen_parents mutated_handle
   s_mem s_hs h_gen h_root h_v1 key_le_to_nibbles.
